@@ -370,6 +370,8 @@ void run_c14(const RunOpts& o, Result& res) {
   res.num["threads"] = nthreads;
   res.num["ops"] = (double)nops;
   res.num["f.guard_contention"] = (double)vs_guard_contentions();
+  { long w = 0, n = 0, e = 0, to = 0; vs_cv_stats(&w, &n, &e, &to);
+    if (w || n) { res.num["f.condvar_wait"] = (double)w; res.num["n.condvar_notify"] = (double)n; res.num["n.condvar_notify_without_waiter"] = (double)e; res.num["f.condvar_timeout"] = (double)to; } }
   res.num["f.preempt"] = (double)vs_preempts_fired();
   res.num["f.stall"] = (double)vs_stalls_fired();
   res.num["f.prewarm"] = nprewarm;
@@ -403,7 +405,7 @@ void run_c14(const RunOpts& o, Result& res) {
   if (rc != 0) {
     // threads are parked for good: report and leave without joining
     res.fail(rc == 1 ? "deadlock" : rc == 3 ? "stuck" : "progress", rc == 1 ? "deadlock" : rc == 3 ? "stuck" : "progress",
-             rc == 1 ? "all remaining simulated threads are blocked on initialisation guards / locks owned by blocked threads"
+             rc == 1 ? "all remaining simulated threads are blocked: on initialisation guards / locks owned by blocked threads, or in condition-variable waits nobody is left to notify"
              : rc == 3 ? "a thread never reached its next scheduling point, and the run did not finish even when every thread was left running freely (spin wait / livelock)"
                        : "run did not finish within " + std::to_string(budget) + " scheduler decisions", vs_steps());
     dump_events(); record();
